@@ -1,4 +1,5 @@
 import LachesisVerif.Model.Piecefunc
+import LachesisVerif.Proofs.PiecefuncLinear
 /-!
 # C31 — Piecewise-linear functions interpolate within rounding
 
@@ -12,9 +13,12 @@ Constants, `Mul`, `Div`, every comparison of `NewFunc`/`Get` and the final sum a
 from utils/piecefunc (`Gen.Piecefunc`, uint64 arithmetic modelled modulo 2^64).
 Proved here: rejection of exactly the invalid lists, the three "exact" clauses, absence of
 overflow (the uint64 result equals the formula over unbounded naturals), the upper/lower
-bounds. NOT proved yet: the "within |ΔY|/10^6 + 2 of the exact interpolation" clause (the claim
-for C31 is therefore partial; the clause is covered only by the correspondence stream, which
-compares every result of the real code with this model bit for bit).
+bounds, and the "within |ΔY|/10^6 + 2 of the exact interpolation" clause (`near_linear`, stated
+division-free: with `D = x1 - x0`, `a = x - x0` and the exact rational interpolation
+`L = (y0·(D-a) + y1·a)/D`, `|Get·D·10^6 - L·D·10^6| ≤ (|y1-y0| + 2·10^6)·D`, written as two
+inequalities over the naturals so that no subtraction can underflow; arithmetic core in
+`Proofs.PiecefuncLinear`). Every clause of the property is proved about the model; the
+correspondence stream compares every result of the real code with this model bit for bit.
 -/
 namespace C31
 open Model.Piecefunc Gen.Piecefunc
@@ -283,6 +287,44 @@ theorem between_bounds (dots : List Dot) (v : Valid dots) (x : Nat) (h0 : X dots
     interp_spec (X dots p) (Y dots p) (X dots (p + 1)) (Y dots (p + 1)) x hl hr (incr_adj dots v.incr p hp) hb1.1 hb0.2 hb1.2
   exact ⟨p, r, hp, hl, hr, e, hr1, o1, o2, o3, by rw [hg, hv], by rw [hg, hv]; exact o4, by rw [hg]; exact hu, by rw [hg]; exact hlo⟩
 
+/-- between two neighbouring dots the result is within `|ΔY|/10^6 + 2` of the exact linear
+    interpolation `L = (y0·(D-a) + y1·a)/D` (`D = x1 - x0 > 0`, `a = x - x0`), on the same piece `p`
+    and with the same ratio `r` as in `between_bounds`. Division-free, multiplied by `D·10^6`:
+    `|get·D·10^6 - (y0·(D-a) + y1·a)·10^6| ≤ (|y1-y0| + 2·10^6)·D`, as two inequalities over `Nat`
+    (`|y1-y0| = max y0 y1 - min y0 y1`, which cannot underflow). -/
+theorem near_linear (dots : List Dot) (v : Valid dots) (x : Nat) (h0 : X dots 0 ≤ x) (h1 : x ≤ X dots (dots.length - 1)) :
+    ∃ p r, p + 1 < dots.length ∧ X dots p ≤ x ∧ x ≤ X dots (p + 1) ∧ X dots p < X dots (p + 1) ∧
+      r = (x - X dots p) * 1000000 / (X dots (p + 1) - X dots p) ∧
+      get dots x = Y dots p * (1000000 - r) / 1000000 + Y dots (p + 1) * r / 1000000 ∧
+      get dots x * (X dots (p + 1) - X dots p) * 1000000 ≤
+        (Y dots p * ((X dots (p + 1) - X dots p) - (x - X dots p)) + Y dots (p + 1) * (x - X dots p)) * 1000000 +
+          ((max (Y dots p) (Y dots (p + 1)) - min (Y dots p) (Y dots (p + 1))) + 2 * 1000000) * (X dots (p + 1) - X dots p) ∧
+      (Y dots p * ((X dots (p + 1) - X dots p) - (x - X dots p)) + Y dots (p + 1) * (x - X dots p)) * 1000000 ≤
+        get dots x * (X dots (p + 1) - X dots p) * 1000000 +
+          ((max (Y dots p) (Y dots (p + 1)) - min (Y dots p) (Y dots (p + 1))) + 2 * 1000000) * (X dots (p + 1) - X dots p) := by
+  obtain ⟨p, r, hp, hl, hr, e, hr1, _, _, _, hg, _, _, _⟩ := between_bounds dots v x h0 h1
+  have hlt := incr_adj dots v.incr p hp
+  have hc := Proofs.PiecefuncLinear.near_linear_nat (Y dots p) (Y dots (p + 1)) (x - X dots p)
+    (X dots (p + 1) - X dots p) r (get dots x) 1000000 (by decide) (by omega) (by omega) e hr1 hg
+  exact ⟨p, r, hp, hl, hr, hlt, e, hg, hc.1, hc.2⟩
+
+theorem natAbs_sub_le (G L B : Nat) (i1 : G ≤ L + B) (i2 : L ≤ G + B) : ((G : Int) - (L : Int)).natAbs ≤ B := by
+  omega
+
+/-- the same over the integers: `|get·D·U - L·D·U| ≤ (|y1 - y0| + 2U)·D` with `U = 10^6` -/
+theorem near_linear_int (dots : List Dot) (v : Valid dots) (x : Nat) (h0 : X dots 0 ≤ x) (h1 : x ≤ X dots (dots.length - 1)) :
+    ∃ p, p + 1 < dots.length ∧ X dots p ≤ x ∧ x ≤ X dots (p + 1) ∧ X dots p < X dots (p + 1) ∧
+      ((get dots x * (X dots (p + 1) - X dots p) * 1000000 : Nat) -
+        ((Y dots p * (X dots (p + 1) - x) + Y dots (p + 1) * (x - X dots p)) * 1000000 : Nat) : Int).natAbs ≤
+        (((Y dots (p + 1) : Int) - Y dots p).natAbs + 2 * 1000000) * (X dots (p + 1) - X dots p) := by
+  obtain ⟨p, r, hp, hl, hr, hlt, _, _, i1, i2⟩ := near_linear dots v x h0 h1
+  refine ⟨p, hp, hl, hr, hlt, ?_⟩
+  have e1 : (X dots (p + 1) - X dots p) - (x - X dots p) = X dots (p + 1) - x := by omega
+  rw [e1] at i1 i2
+  have e2 : ((Y dots (p + 1) : Int) - Y dots p).natAbs = max (Y dots p) (Y dots (p + 1)) - min (Y dots p) (Y dots (p + 1)) := by omega
+  rw [e2]
+  exact natAbs_sub_le _ _ _ i1 i2
+
 /-- each dot's Y exactly at its X -/
 theorem exact_at_dots (dots : List Dot) (v : Valid dots) (i : Nat) (hi : i < dots.length) :
     get dots (X dots i) = Y dots i := by
@@ -318,5 +360,7 @@ theorem exact_at_dots (dots : List Dot) (v : Valid dots) (i : Nat) (hi : i < dot
 example : newFunc [⟨0, 10⟩, ⟨10, 1000000⟩, ⟨100, 5⟩] = none := by decide
 example : get [⟨0, 10⟩, ⟨10, 1000000⟩, ⟨100, 5⟩] 5 = 500005 := by decide
 example : newFunc [⟨0, 10⟩, ⟨0, 11⟩] = some "non monotonic X" := by decide
+/-- the slack is really used: the exact interpolation at x = 1 is 1.999998, `Get` gives 0 -/
+example : get [⟨0, 1⟩, ⟨1000000, 999999⟩] 1 = 0 := by decide
 
 end C31
